@@ -53,6 +53,7 @@ structure Attr where
 inductive RuleItem
   | call (fn : String) (argc : Nat)               -- `fn(SELF.…, …)`, SELF occurs only inside the arguments
   | selfAttr (attr : String)                      -- `SELF.attr`
+  | bareAttr (attr : String)                      -- `attr` (no SELF): found through `VARfind` = own and inherited attributes
   | smallReal (shown : String)                    -- a REAL literal with |x| ≤ FLT_MIN; `shown` = its `%f` rendering
   deriving Repr, DecidableEq
 
@@ -90,6 +91,7 @@ structure TypeDecl where
   name : String
   line : Nat
   body : TypeBody
+  rules : List Rule := []            -- WHERE rules of the type (`fn(SELF, …) > 0`)
   deriving Repr, DecidableEq
 
 structure Func where
@@ -436,8 +438,8 @@ def supersOf (s : Schema) (e : Entity) : List String := (e.supers.map (·.1)).fi
 /-- select items that are themselves select types -/
 def selectGraph (s : Schema) (n : String) : List String :=
   match findType s n with
-  | some ⟨_, _, .select items⟩ => (items.map (·.1)).filter fun i =>
-      match findType s i with | some ⟨_, _, .select _⟩ => true | _ => false
+  | some ⟨_, _, .select items, _⟩ => (items.map (·.1)).filter fun i =>
+      match findType s i with | some ⟨_, _, .select _, _⟩ => true | _ => false
   | _ => []
 
 def lineOfEntity (s : Schema) (n : String) : Nat := ((findEntity s n).map (·.line)).getD 0
@@ -505,7 +507,7 @@ def cycleDiags (path : String) (loopCode contCode : Nat) (lineOf : String → Na
     else []
   | none => []
 
-def inverseDiags (path : String) (s : Schema) (a : Attr) : List Diag :=
+def inverseDiags (path : String) (s : Schema) (a : Attr) (hasAttr : String → String → Bool := fun _ _ => false) : List Diag :=
   match a.inverseFor with
   | none => []
   | some (attrName, l) =>
@@ -513,8 +515,8 @@ def inverseDiags (path : String) (s : Schema) (a : Attr) : List Diag :=
     | .named n _ =>
       (match findEntity s n with
        | some target =>
-         -- VARfind( entity, name, 1 ): own attributes and inherited ones; only own ones are modelled
-         if target.attrs.any (·.name = attrName) then []
+         -- VARfind( entity, name, 1 ): own attributes and inherited ones (never those of a subtype)
+         if target.attrs.any (·.name = attrName) || hasAttr target.name attrName then []
          else [mk path LibErrors.INVERSE_BAD_ATTR l [sArg attrName, sArg target.name]]
        | none => if (findType s n).isSome then [mk path LibErrors.INVERSE_BAD_ENTITY a.line [sArg attrName]] else [])
     | _ => [mk path LibErrors.INVERSE_BAD_ENTITY a.line [sArg attrName]]
@@ -586,11 +588,30 @@ def pass4 (path : String) (env : Env) (s : Schema) : List Diag :=
         | none => none) ++
       -- ENTITYresolve_types
       (e.attrs.flatMap fun a => typeRefDiags path env s a.ty ++
-        (if (typeRefDiags path env s a.ty).isEmpty then inverseDiags path s a else [])) ++
+        (if (typeRefDiags path env s a.ty).isEmpty then inverseDiags path s a (fun en an => namedAttr s an fuel en = some true) else [])) ++
       (e.uniques.flatMap (uniqueDiags path s e fuel)) ++
       -- ENTITYcheck_subsuper_cyclicity
       cycleDiags path LibErrors.SUBSUPER_LOOP LibErrors.SUBSUPER_CONTINUATION (lineOfEntity s) e.name
         (dfs ResolveGen.visitedReturnsSubsuper e.name (subGraph s) fuel (subGraph s e.name) [])
+    | _ => []
+
+/-- a function call inside a domain rule: arity warning, or undefined function (+ the MISSING_SELF it entails: the
+    arguments, where SELF occurs, are not resolved) -/
+def callDiags (path : String) (s : Schema) (r : Rule) (fn : String) (argc : Nat) : List Diag :=
+  match findFunc s fn with
+  | some fd => if fd.nparams = argc then []
+               else [mk path LibErrors.WRONG_ARG_COUNT r.line [sArg fn, .int argc, .int fd.nparams]]
+  | none =>
+    match builtinArity fn with
+    | some n => if n = argc then [] else [mk path LibErrors.WRONG_ARG_COUNT r.line [sArg fn.toUpper, .int argc, .int n]]
+    | none => [mk path LibErrors.UNDEFINED_FUNC r.line [sArg fn],
+               mk path LibErrors.MISSING_SELF r.line [sArg r.label]]
+
+/-- `TYPEresolve_expressions` for the WHERE rules of every type declaration of the schema — whatever its underlying type
+    (simple, aggregate, enumeration, select, or another defined type) and whether or not anything uses it -/
+def typeRuleDiags (path : String) (s : Schema) : List Diag :=
+  s.types.flatMap fun t => t.rules.flatMap fun r => r.items.flatMap fun
+    | .call fn argc => callDiags path s r fn argc
     | _ => []
 
 def pass5 (path : String) (s : Schema) : Pass :=
@@ -612,22 +633,21 @@ def pass5 (path : String) (s : Schema) : Pass :=
                        else [mk path LibErrors.REDECL_NO_SUCH_ATTR a.line [sArg a.name, sArg sup]]
           | none => []
     let rules := e.rules.flatMap fun r => r.items.flatMap fun
-      | .call fn argc =>
-        (match findFunc s fn with
-         | some fd => if fd.nparams = argc then []
-                      else [mk path LibErrors.WRONG_ARG_COUNT r.line [sArg fn, .int argc, .int fd.nparams]]
-         | none =>
-           match builtinArity fn with
-           | some n => if n = argc then [] else [mk path LibErrors.WRONG_ARG_COUNT r.line [sArg fn.toUpper, .int argc, .int n]]
-           | none => [mk path LibErrors.UNDEFINED_FUNC r.line [sArg fn],
-                      mk path LibErrors.MISSING_SELF r.line [sArg r.label]])
+      | .call fn argc => callDiags path s r fn argc
       | .selfAttr an =>
         (match namedAttr s an fuel e.name with
          | some true => []
          | _ => [mk path LibErrors.UNKNOWN_ATTR_IN_ENTITY r.line [sArg an, sArg e.name]])
+      | .bareAttr an =>
+        -- `VARfind`: own and inherited attributes only; otherwise the name is looked up (and not found) in the enclosing
+        -- scopes, and the rule, having no other reference to SELF or an attribute, is reported as well
+        (match namedAttr s an fuel e.name with
+         | some true => []
+         | _ => [mk path LibErrors.UNDEFINED r.line [sArg an], mk path LibErrors.MISSING_SELF r.line [sArg r.label]])
       | .smallReal _ => []
     (overl, redecl ++ rules)
-  { diags := per.flatMap fun (overl, rules) => (overl.filterMap fun (r, d) => if r = some true then some d else none) ++ rules,
+  { diags := typeRuleDiags path s ++
+             per.flatMap fun (overl, rules) => (overl.filterMap fun (r, d) => if r = some true then some d else none) ++ rules,
     diverges := per.any fun (overl, _) => overl.any fun (r, _) => r = none }
 
 /-- pass 2 dereferences the NULL entry that a failed `USE FROM <undefined>;` leaves in `use_schemas` when some schema
